@@ -35,6 +35,14 @@ impl Norm for Result<usize, SendBatchError<P>> {
         }
     }
 }
+impl Norm for Result<usize, TrySendBatchError<P>> {
+    fn norm(self) -> Res {
+        match self {
+            Ok(n) => Res::BatchOk(n),
+            Err(e) => Res::TryBatchErr { sent: e.sent, unsent: e.unsent.iter().map(|p| p.id).collect(), full: matches!(e.reason, BatchSendErrorReason::Full) },
+        }
+    }
+}
 impl Norm for Result<P, TryRecvError> {
     fn norm(self) -> Res {
         match self {
@@ -95,6 +103,9 @@ pub trait Tx: Send {
     fn send_batch(&mut self, _v: Vec<P>) -> Res {
         panic!("MACHINERY|send_batch unsupported on this flavour")
     }
+    fn try_send_batch(&mut self, _v: Vec<P>) -> Res {
+        panic!("MACHINERY|try_send_batch unsupported on this flavour")
+    }
     fn clone_tx(&self) -> Box<dyn Tx> {
         panic!("MACHINERY|sender clone unsupported on this flavour")
     }
@@ -152,9 +163,11 @@ macro_rules! feat {
     };
     (tx_batch_sync) => {
         fn send_batch(&mut self, v: Vec<P>) -> Res { self.0.send_batch(v).norm() }
+        fn try_send_batch(&mut self, v: Vec<P>) -> Res { self.0.try_send_batch(v).norm() }
     };
     (tx_batch_async) => {
         fn send_batch(&mut self, v: Vec<P>) -> Res { block_on(self.0.send_batch(v)).norm() }
+        fn try_send_batch(&mut self, v: Vec<P>) -> Res { self.0.try_send_batch(v).norm() }
     };
     (tx_clone) => {
         fn clone_tx(&self) -> Box<dyn Tx> { Box::new(W(self.0.clone())) }
